@@ -55,8 +55,10 @@ type Spec struct {
 	FailOnKill        bool   `json:"failOnKill,omitempty"`        // panic while handling OnKill
 	FailOnChildKilled int    `json:"failOnChildKilled,omitempty"` // panic on the first n OnKilled of children
 	FailOnOwnKilled   bool   `json:"failOnOwnKilled,omitempty"`
-	OnLaunch          []Step `json:"onLaunch,omitempty"` // program run by every incarnation on OnLaunch
-	GateKill          string `json:"gateKill,omitempty"` // gate the OnKill handler blocks on
+	OnLaunch          []Step `json:"onLaunch,omitempty"`      // program run by every incarnation on OnLaunch
+	GateKill          string `json:"gateKill,omitempty"`      // gate the OnKill handler blocks on
+	RespawnKilled     bool   `json:"respawnKilled,omitempty"` // on a child's OnKilled (while running) respawn it under the same name, once per name
+	RespawnAlways     bool   `json:"respawnAlways,omitempty"` // with RespawnKilled: every time, not once per name
 }
 
 // Msg is the only user message.
@@ -457,6 +459,8 @@ type probe struct {
 	tags        []string // behaviour tags (become stack mirror is not needed: the tag is bound in the closure)
 	killedSeen  int
 	stashedOnce map[int]bool
+	respawned   map[string]bool
+	gotKill     bool
 }
 
 type hookFailure struct{ what string }
@@ -537,6 +541,7 @@ func (p *probe) receive(ctx vivid.ActorContext, beh string) {
 		p.run(ctx, p.sh.spec.OnLaunch, 0)
 	case *vivid.OnKill:
 		w.record(Ev{Actor: me, Inst: p.inst, Kind: "kill", From: from, Beh: beh, Note: fmt.Sprintf("poison=%v", m.Poison)})
+		p.gotKill = true
 		if g := p.sh.spec.GateKill; g != "" {
 			<-w.gate(g)
 		}
@@ -553,6 +558,15 @@ func (p *probe) receive(ctx vivid.ActorContext, beh string) {
 			if p.sh.spec.FailOnOwnKilled {
 				panic("verif: own OnKilled failure")
 			}
+		} else if p.sh.spec.RespawnKilled && !p.gotKill && strings.HasPrefix(rp, me+"/") && !strings.Contains(rp[len(me)+1:], "/") && (!p.respawned[rp] || p.sh.spec.RespawnAlways) {
+			// the parent was told that its child terminated: the name must be free again
+			if p.respawned == nil {
+				p.respawned = map[string]bool{}
+			}
+			p.respawned[rp] = true
+			name := rp[len(me)+1:]
+			_, err := w.spawn(ctx, p.name(ctx), Spec{Name: name})
+			w.call(p.name(ctx), "respawn:"+name, 0, err, "")
 		} else if p.killedSeen < p.sh.spec.FailOnChildKilled {
 			p.killedSeen++
 			panic("verif: child OnKilled failure")
@@ -617,7 +631,9 @@ func (p *probe) run(ctx vivid.ActorContext, prog []Step, curID int) {
 		case "ask":
 			w.Ask(who, ctx, w.Resolve(st.To, st.Via, p, ctx), st)
 		case "kill":
-			ctx.Kill(w.Resolve(st.To, st.Via, p, ctx), st.B, "verif")
+			kref := w.Resolve(st.To, st.Via, p, ctx)
+			w.call(who, "kill", 0, nil, kref.GetPath())
+			ctx.Kill(kref, st.B, "verif")
 		case "panic":
 			panic(fmt.Sprintf("verif: panic in message %d", curID))
 		case "failed":
@@ -806,7 +822,9 @@ func (w *World) SendsCopy() []Sent {
 
 // Kill from outside.
 func (w *World) Kill(to, via string, poison bool) {
-	w.Sys.Kill(w.Resolve(to, via, nil, nil), poison, "verif")
+	ref := w.Resolve(to, via, nil, nil)
+	w.call("", "kill", 0, nil, ref.GetPath())
+	w.Sys.Kill(ref, poison, "verif")
 }
 
 type asker interface {
